@@ -10,6 +10,7 @@ So the token list of a serialised document is the concatenation of the token lis
 -/
 import RioModel.Proofs.HtmlStream2
 import RioModel.Proofs.FilterTok
+import RioModel.Proofs.FilterDom
 set_option linter.unusedSimpArgs false
 set_option linter.unusedVariables false
 
@@ -133,8 +134,9 @@ theorem tgStep_sim {F : Prop} {p : Nat} (t u : Tokenizer) (c : Pre F p t u) (it 
     match tgStep u with
     | .fail => tgStep t = .fail
     | .stop r => F → tgStep t = .stop r
-    | .tok k u' => ∃ t', tgStep t = .tok k t' ∧ Pre F p t' u' ∧ Inv t' ∧ Inv u' ∧ u'.rawE = (next u).rawE ∧
-        u'.err = (next u).err ∧ u'.rawTag = (next u).rawTag ∧ u'.allowCdata = (next u).allowCdata := by
+    | .tok k u' => ∃ t', tgStep t = .tok k t' ∧ Pre F p t' u' ∧ Inv t' ∧ Inv u' ∧ t'.buf = t.buf ∧
+        u'.rawE = (next u).rawE ∧ u'.err = (next u).err ∧ u'.rawTag = (next u).rawTag ∧
+        u'.allowCdata = (next u).allowCdata := by
   have ct := next_sim t u c iu e
   have it1 := next_inv' t it
   have iu1 := next_inv' u iu
@@ -161,7 +163,7 @@ theorem tgStep_sim {F : Prop} {p : Nat} (t u : Tokenizer) (c : Pre F p t u) (it 
       · simp only [h3, if_true]
         have h3t : Tokenizer.isTagLike (next t).token = true := by rw [ct.2]; exact h3
         obtain ⟨ru, iu2, _, _, _, _⟩ := tagName_spec (next u) iu1 spu h3
-        obtain ⟨rt, it2, _, _, _, _⟩ := tagName_spec (next t) it1 spt h3t
+        obtain ⟨rt, it2, _, _, _, hbuf2⟩ := tagName_spec (next t) it1 spt h3t
         rw [hdata] at rt
         have hpre : (tagName (next t)).1 ≠ .panic → (tagName (next u)).1 ≠ .panic →
             Pre F p (tagName (next t)).2 (tagName (next u)).2 := pre_tagName ct.1.toPre
@@ -172,8 +174,8 @@ theorem tgStep_sim {F : Prop} {p : Nat} (t u : Tokenizer) (c : Pre F p t u) (it 
           have hp := hpre hnpt hnpu
           rcases htu : tagName (next u) with ⟨resu, u2⟩
           rcases htt : tagName (next t) with ⟨rest, t2⟩
-          rw [htu] at ru iu2 hp; rw [htt] at rt it2 hp
-          simp only at ru rt iu2 it2 hp
+          rw [htu] at ru iu2 hp; rw [htt] at rt it2 hp hbuf2
+          simp only at ru rt iu2 it2 hp hbuf2
           subst ru rt
           simp only
           have hu2 : u2 = (tagName (next u)).2 := by rw [htu]
@@ -184,7 +186,8 @@ theorem tgStep_sim {F : Prop} {p : Nat} (t u : Tokenizer) (c : Pre F p t u) (it 
             · rw [htu] at h; simp at h
             · rw [h]; exact ⟨rfl, rfl, rfl, rfl⟩
             · rw [h]; exact ⟨rfl, rfl, rfl, rfl⟩
-          exact ⟨t2, rfl, hp, it2, iu2, hfields.1, hfields.2.1, hfields.2.2.1, hfields.2.2.2⟩
+          exact ⟨t2, rfl, hp, it2, iu2, hbuf2.trans (next_buf' t it), hfields.1, hfields.2.1, hfields.2.2.1,
+            hfields.2.2.2⟩
         · rw [if_neg hv] at ru rt
           rcases htu : tagName (next u) with ⟨resu, u2⟩
           rcases htt : tagName (next t) with ⟨rest, t2⟩
@@ -193,6 +196,400 @@ theorem tgStep_sim {F : Prop} {p : Nat} (t u : Tokenizer) (c : Pre F p t u) (it 
           subst ru rt
           rfl
       · simp only [h3, if_false, Bool.false_eq_true]
-        exact ⟨next t, rfl, ct.1.toPre, it1, iu1, trivial, trivial, trivial, trivial⟩
+        exact ⟨next t, rfl, ct.1.toPre, it1, iu1, next_buf' t it, trivial, trivial, trivial, trivial⟩
+
+/-! ### the loop: RESTART and PREFIX STABILITY at the level of `tokenizeGo` -/
+
+/-- on a full window the loop gives the same tokens and the same remainder -/
+theorem tokenizeGo_full {p : Nat} : ∀ (n : Nat) (t u : Tokenizer), Pre True p t u → Inv t → Inv u →
+    tokenizeGo n t [] = tokenizeGo n u []
+  | 0, _, _, _, _, _ => by simp [tokenizeGo]
+  | n + 1, t, u, c, it, iu => by
+    rw [tokenizeGo_succ, tokenizeGo_succ]
+    have hs := tgStep_sim t u c it iu (Or.inl trivial)
+    cases hu : tgStep u with
+    | fail => rw [hu] at hs; rw [hs]
+    | stop r => rw [hu] at hs; rw [hs trivial]
+    | tok k u' =>
+      rw [hu] at hs
+      obtain ⟨t', ht, c', it', iu', _⟩ := hs
+      rw [ht]
+      simp only
+      rw [tokenizeGo_acc n t' [k], tokenizeGo_acc n u' [k], tokenizeGo_full n t' u' c' it' iu']
+
+/-- run the loop over the tokens `ts`, none of which may reach the end of the buffer; the state afterwards -/
+def closedEnd : Tokenizer → List Tok → Option Tokenizer
+  | u, [] => some u
+  | u, k :: ks =>
+    match tgStep u with
+    | .tok k' u1 => if k' = k ∧ (next u).err = false then closedEnd u1 ks else none
+    | _ => none
+
+theorem closedEnd_sim {p : Nat} : ∀ (ts : List Tok) (t u u' : Tokenizer), closedEnd u ts = some u' →
+    Pre False p t u → Inv t → Inv u →
+    ∃ t', (∀ n acc, tokenizeGo (n + ts.length) t acc = tokenizeGo n t' (ts.reverse ++ acc)) ∧
+      Pre False p t' u' ∧ Inv t' ∧ Inv u' ∧ t'.buf = t.buf
+  | [], t, u, u', h, c, it, iu => by
+    simp only [closedEnd, Option.some.injEq] at h
+    subst h
+    exact ⟨t, fun n acc => by simp, c, it, iu, rfl⟩
+  | k :: ks, t, u, u', h, c, it, iu => by
+    unfold closedEnd at h
+    cases hu : tgStep u with
+    | fail => rw [hu] at h; cases h
+    | stop r => rw [hu] at h; cases h
+    | tok k' u1 =>
+      rw [hu] at h
+      simp only at h
+      split at h
+      · rename_i hk
+        obtain ⟨hk1, herr⟩ := hk
+        subst hk1
+        have hs := tgStep_sim t u c it iu (Or.inr herr)
+        rw [hu] at hs
+        obtain ⟨t1, ht, c1, it1, iu1, hb1, _⟩ := hs
+        obtain ⟨t', hrun, c', it', iu', hb'⟩ := closedEnd_sim ks t1 u1 u' h c1 it1 iu1
+        refine ⟨t', ?_, c', it', iu', hb'.trans hb1⟩
+        intro n acc
+        rw [show n + (k' :: ks).length = (n + ks.length) + 1 by simp; omega, tokenizeGo_succ, ht]
+        simp only
+        rw [hrun n (k' :: acc)]
+        simp
+      · cases h
+
+/-- the tokens `ts` of `x` are all produced before the end of `x` is reached, they consume `x` entirely, and the
+tokenizer is then outside any raw-text context: nothing that follows `x` can change them -/
+def Closed (x : Bytes) (ts : List Tok) : Prop :=
+  ∃ u', closedEnd (Tokenizer.new x.toArray) ts = some u' ∧ u'.rawE = x.length ∧ u'.err = false ∧
+    u'.rawTag = [] ∧ u'.allowCdata = true ∧ ts.length ≤ x.length
+
+/-- decidable version -/
+def closedB (x : Bytes) (ts : List Tok) : Bool :=
+  match closedEnd (Tokenizer.new x.toArray) ts with
+  | some u' => u'.rawE == x.length && !u'.err && u'.rawTag == [] && u'.allowCdata && decide (ts.length ≤ x.length)
+  | none => false
+
+theorem closedB_sound {x : Bytes} {ts : List Tok} (h : closedB x ts = true) : Closed x ts := by
+  unfold closedB at h
+  cases hc : closedEnd (Tokenizer.new x.toArray) ts with
+  | none => rw [hc] at h; cases h
+  | some u' =>
+    rw [hc] at h
+    simp only [Bool.and_eq_true, beq_iff_eq, Bool.not_eq_true', decide_eq_true_eq] at h
+    exact ⟨u', hc, h.1.1.1.1, h.1.1.1.2, h.1.1.2, h.1.2, h.2⟩
+
+theorem inv_new (a : Array Nat) : Inv (Tokenizer.new a) :=
+  ⟨Nat.le_refl _, ⟨Nat.zero_le _, rfl, rfl, rfl⟩, TagOk_nil⟩
+
+/-- **tokens(x ++ y) = tokens(x) ++ tokens(y) for a closed `x`.** -/
+theorem htmlTokenize?_append {x y : Bytes} {ts ts' : List Tok} {r : Bytes} (hc : Closed x ts)
+    (hy : htmlTokenize? y = some (ts', r)) : htmlTokenize? (x ++ y) = some (ts ++ ts', r) := by
+  obtain ⟨u', hce, hrawE, herr, htag, hcd, hlen⟩ := hc
+  unfold htmlTokenize? at hy ⊢
+  -- the tokenizer on x ++ y sees the tokenizer on x as a prefix window
+  have hext : Tokenizer.new (x ++ y).toArray = extend (Tokenizer.new x.toArray) y.toArray := by
+    simp [Tokenizer.new, extend]
+  have c0 : Pre False 0 (Tokenizer.new (x ++ y).toArray) (Tokenizer.new x.toArray) := by
+    rw [hext]; exact pre_extend _ _
+  obtain ⟨t', hrun, c', it', iu', hb'⟩ :=
+    closedEnd_sim ts _ _ u' hce c0 (inv_new _) (inv_new _)
+  -- fuel: |x| + |y| + 2 = (|y| + 2 + (|x| - |ts|)) + |ts|
+  rw [show (x ++ y).length + 2 = (y.length + 2 + (x.length - ts.length)) + ts.length by
+    simp only [List.length_append]; omega]
+  rw [hrun, List.append_nil, tokenizeGo_acc]
+  -- restart at the boundary
+  have hrE : t'.rawE = x.length := by rw [c'.rawE, hrawE]; simp
+  have herr' : t'.err = false := by rw [c'.err, herr]
+  have htag' : t'.rawTag = [] := by rw [c'.rawTag, htag]
+  have hcd' : t'.allowCdata = true := by rw [c'.cdata, hcd]
+  have cr := pre_restart t' it' herr' htag' hcd'
+  have hro : restartOf t' = Tokenizer.new y.toArray := by
+    unfold restartOf
+    rw [hb', hrE]
+    congr 1
+    simp [Tokenizer.new]
+  rw [hro] at cr
+  rw [tokenizeGo_full _ t' (Tokenizer.new y.toArray) cr it' (inv_new _),
+    tokenizeGo_fuel _ (x.length - ts.length) _ [] _ hy]
+  simp
+
+theorem htmlTokenize?_nil : htmlTokenize? [] = some ([], []) := by decide +kernel
+
+/-- a sequence of closed pieces followed by anything -/
+theorem htmlTokenize?_pieces : ∀ (ps : List (Bytes × List Tok)), (∀ p ∈ ps, Closed p.1 p.2) →
+    ∀ {y : Bytes} {ts' : List Tok} {r : Bytes}, htmlTokenize? y = some (ts', r) →
+      htmlTokenize? (ps.flatMap (·.1) ++ y) = some (ps.flatMap (·.2) ++ ts', r)
+  | [], _, y, ts', r, hy => by simpa using hy
+  | p :: ps, h, y, ts', r, hy => by
+    have ih := htmlTokenize?_pieces ps (fun q hq => h q (List.mem_cons_of_mem _ hq)) hy
+    have := htmlTokenize?_append (h p (by simp)) ih
+    simpa [List.flatMap_cons, List.append_assoc] using this
+
+/-! ### the pieces of a document -/
+
+section
+variable (vt : Bytes → List Tok)
+
+mutual
+  /-- one piece per tag, per verbatim piece, per raw-text element (start tag, raw text and end tag together:
+  between them the tokenizer is in a raw-text context) -/
+  def piecesOf : Node → List (Bytes × List Tok)
+    | .verb raw _ => [(raw, vt raw)]
+    | .el nm d at_ knd cs =>
+      match knd with
+      | .selfClosing => [((selfTok nm d at_).raw, [selfTok nm d at_])]
+      | .void => [((startTok nm d at_).raw, [startTok nm d at_])]
+      | .raw => [(serialize (.el nm d at_ .raw cs), tokensOf vt (.el nm d at_ .raw cs))]
+      | .normal =>
+        ((startTok nm d at_).raw, [startTok nm d at_]) ::
+          (piecesOfList cs ++ [((endTok nm d).raw, [endTok nm d])])
+  def piecesOfList : List Node → List (Bytes × List Tok)
+    | [] => []
+    | n :: ns => piecesOf n ++ piecesOfList ns
+end
+
+mutual
+  theorem piecesOf_bytes : ∀ n : Node, (piecesOf vt n).flatMap (·.1) = serialize n
+    | .verb raw _ => by simp [piecesOf, serialize]
+    | .el nm d at_ knd cs => by
+      cases knd with
+      | selfClosing => simp [piecesOf, serialize, selfTok]
+      | void => simp [piecesOf, serialize, startTok]
+      | raw => simp [piecesOf]
+      | normal =>
+        simp only [piecesOf, List.flatMap_cons, List.flatMap_append, piecesOfList_bytes cs, List.flatMap_nil,
+          List.append_nil, serialize, startTok, endTok]
+        simp [List.append_assoc]
+  theorem piecesOfList_bytes : ∀ ns : List Node, (piecesOfList vt ns).flatMap (·.1) = serializeList ns
+    | [] => by simp [piecesOfList, serializeList]
+    | n :: ns => by
+      simp only [piecesOfList, List.flatMap_append, piecesOf_bytes n, piecesOfList_bytes ns, serializeList]
+end
+
+mutual
+  theorem piecesOf_toks : ∀ n : Node, (piecesOf vt n).flatMap (·.2) = tokensOf vt n
+    | .verb raw _ => by simp [piecesOf, tokensOf]
+    | .el nm d at_ knd cs => by
+      cases knd with
+      | selfClosing => simp [piecesOf, tokensOf]
+      | void => simp [piecesOf, tokensOf]
+      | raw => simp [piecesOf]
+      | normal =>
+        simp only [piecesOf, List.flatMap_cons, List.flatMap_append, piecesOfList_toks cs, List.flatMap_nil,
+          List.append_nil, tokensOf]
+        simp
+  theorem piecesOfList_toks : ∀ ns : List Node, (piecesOfList vt ns).flatMap (·.2) = tokensOfList vt ns
+    | [] => by simp [piecesOfList, tokensOfList]
+    | n :: ns => by
+      simp only [piecesOfList, List.flatMap_append, piecesOf_toks n, piecesOfList_toks ns, tokensOfList]
+end
+
+end
+
+/-- a piece that is not closed on its own (a text: its extent depends on what follows) is merged with the next one -/
+def mergeUnits : List (Bytes × List Tok) → List (Bytes × List Tok)
+  | [] => []
+  | p :: rest =>
+    match mergeUnits rest with
+    | [] => [p]
+    | q :: qs => if closedB p.1 p.2 then p :: q :: qs else (p.1 ++ q.1, p.2 ++ q.2) :: qs
+
+theorem mergeUnits_flat : ∀ ps : List (Bytes × List Tok),
+    (mergeUnits ps).flatMap (·.1) = ps.flatMap (·.1) ∧ (mergeUnits ps).flatMap (·.2) = ps.flatMap (·.2)
+  | [] => by simp [mergeUnits]
+  | p :: rest => by
+    have ih := mergeUnits_flat rest
+    unfold mergeUnits
+    cases hm : mergeUnits rest with
+    | nil =>
+      rw [hm] at ih
+      simp only [List.flatMap_nil] at ih
+      simp [List.flatMap_cons, ← ih.1, ← ih.2]
+    | cons q qs =>
+      rw [hm] at ih
+      simp only
+      split
+      · simp only [List.flatMap_cons] at ih ⊢
+        rw [ih.1, ih.2]; exact ⟨rfl, rfl⟩
+      · simp only [List.flatMap_cons] at ih ⊢
+        rw [← ih.1, ← ih.2]
+        simp [List.append_assoc]
+
+/-- every unit but the last is closed; the last one is closed or tokenises, at the end of the input, as expected -/
+def unitsOKB (us : List (Bytes × List Tok)) : Bool :=
+  match us.reverse with
+  | [] => true
+  | last :: initRev =>
+    initRev.all (fun p => closedB p.1 p.2) &&
+    (closedB last.1 last.2 || decide (htmlTokenize? last.1 = some (last.2, [])))
+
+theorem htmlTokenize?_units {us : List (Bytes × List Tok)} (h : unitsOKB us = true) :
+    htmlTokenize? (us.flatMap (·.1)) = some (us.flatMap (·.2), []) := by
+  unfold unitsOKB at h
+  cases hr : us.reverse with
+  | nil =>
+    have : us = [] := by simpa using hr
+    subst this
+    simpa using htmlTokenize?_nil
+  | cons last initRev =>
+    rw [hr] at h
+    simp only [Bool.and_eq_true, Bool.or_eq_true, decide_eq_true_eq] at h
+    have hus : us = initRev.reverse ++ [last] := by
+      have := congrArg List.reverse hr
+      simpa using this
+    have hinit : ∀ p ∈ initRev.reverse, Closed p.1 p.2 := by
+      intro p hp
+      exact closedB_sound (List.all_eq_true.mp h.1 p (by simpa using hp))
+    rw [hus, List.flatMap_append, List.flatMap_append]
+    simp only [List.flatMap_cons, List.flatMap_nil, List.append_nil]
+    rcases h.2 with hl | hl
+    · have := htmlTokenize?_pieces (initRev.reverse ++ [last])
+        (fun p hp => by
+          rcases List.mem_append.mp hp with hp | hp
+          · exact hinit p hp
+          · simp at hp; subst hp; exact closedB_sound hl) htmlTokenize?_nil
+      simpa [List.flatMap_append] using this
+    · have := htmlTokenize?_pieces initRev.reverse hinit hl
+      simpa using this
+
+/-- **byte level, compositional**: if every unit of the serialised document — each tag on its own, each raw-text
+element as a whole, each text together with the tag that follows it — is tokenised as expected in isolation (a
+local, decidable check), then the whole serialised document is tokenised to `tokensOfList vt doc`. -/
+theorem tokenize_serialize_units (vt : Bytes → List Tok) (doc : List Node)
+    (h : unitsOKB (mergeUnits (piecesOfList vt doc)) = true) :
+    htmlTokenize (serializeList doc) = (tokensOfList vt doc, []) := by
+  have := htmlTokenize?_units h
+  rw [(mergeUnits_flat _).1, (mergeUnits_flat _).2, piecesOfList_bytes, piecesOfList_toks] at this
+  simp [htmlTokenize, this]
+
+/-! ### text followed by a tag: the one place where the tokenizer looks ahead -/
+
+/-- a byte that opens a tag / comment / declaration after `<` -/
+def isOpener (c : Nat) : Bool := isAlpha c || c == 47 || c == 33 || c == 63
+
+theorem readByte_at {t : Tokenizer} {b : Nat} (h : t.buf[t.rawE]? = some b) :
+    t.readByte = ({ t with rawE := t.rawE + 1 }, b) := by
+  unfold readByte
+  have hlt : t.rawE < t.buf.size := by
+    rcases Nat.lt_or_ge t.rawE t.buf.size with h' | h'
+    · exact h'
+    · simp [Array.getElem?_eq_none h'] at h
+  simp only [hlt, dite_true]
+  simp [Array.getElem?_eq_getElem hlt] at h
+  rw [h]
+
+theorem mainLoop_skip {t : Tokenizer} {b : Nat} (hb : t.buf[t.rawE]? = some b) (hne : b ≠ 60)
+    (herr : t.err = false) : mainLoop t = mainLoop { t with rawE := t.rawE + 1 } := by
+  cases t
+  simp only at herr hb
+  subst herr
+  rw [mainLoop, readByte_at hb]
+  simp [hne]
+
+theorem mainLoop_open {t : Tokenizer} {c : Nat} (h60 : t.buf[t.rawE]? = some 60)
+    (hc : t.buf[t.rawE + 1]? = some c) (hop : isOpener c = true) (herr : t.err = false) :
+    mainLoop t = dispatchTag { t with rawE := t.rawE + 2 } c := by
+  cases t
+  simp only at herr h60 hc
+  subst herr
+  rw [mainLoop, readByte_at h60]
+  simp only [Bool.false_eq_true, dite_false, bne_self_eq_false, if_false]
+  rw [readByte_at hc]
+  have : (!(isAlpha c || c == 47 || c == 33 || c == 63)) = false := by
+    unfold isOpener at hop; simp [hop]
+  simp [this]
+
+/-- the `'main` loop runs over bytes other than `<` and stops at `<` + opener -/
+theorem mainLoop_text : ∀ (tx : Bytes) (t : Tokenizer) (c : Nat), (∀ b ∈ tx, b ≠ 60) →
+    (∀ i, i < tx.length → t.buf[t.rawE + i]? = tx[i]?) → t.buf[t.rawE + tx.length]? = some 60 →
+    t.buf[t.rawE + tx.length + 1]? = some c → isOpener c = true → t.err = false →
+    mainLoop t = dispatchTag { t with rawE := t.rawE + tx.length + 2 } c
+  | [], t, c, _, _, h60, hc, hop, herr => by
+    simp only [List.length_nil, Nat.add_zero] at h60 hc ⊢
+    exact mainLoop_open h60 hc hop herr
+  | b :: tx, t, c, hne, hbuf, h60, hc, hop, herr => by
+    have hb : t.buf[t.rawE]? = some b := by simpa using hbuf 0 (by simp)
+    rw [mainLoop_skip hb (hne b (by simp)) herr]
+    have h1 : ∀ i, i < tx.length → t.buf[t.rawE + 1 + i]? = tx[i]? := by
+      intro i hi
+      have := hbuf (i + 1) (by simp; omega)
+      simp only [List.getElem?_cons_succ] at this
+      rw [← this]; congr 1; omega
+    have h2 : t.buf[t.rawE + 1 + tx.length]? = some 60 := by
+      simp only [List.length_cons] at h60; rw [← h60]; congr 1; omega
+    have h3 : t.buf[t.rawE + 1 + tx.length + 1]? = some c := by
+      simp only [List.length_cons] at hc; rw [← hc]; congr 1; omega
+    have := mainLoop_text tx { t with rawE := t.rawE + 1 } c (fun x hx => hne x (List.mem_cons_of_mem _ hx))
+      h1 h2 h3 hop herr
+    rw [this]
+    congr 2
+    simp only [List.length_cons]; omega
+
+theorem toArray_getElem?_append_left (a b : Bytes) (i : Nat) (h : i < a.length) :
+    (a ++ b).toArray[i]? = a[i]? := by
+  simp [List.getElem?_append_left h]
+
+/-- the first token of `tx ++ '<' :: c :: rest` (`tx` non-empty, free of `<`; `c` an opener) is the text `tx` -/
+theorem next_text (tx : Bytes) (c : Nat) (rest : Bytes) (hne : tx ≠ []) (h60 : ∀ b ∈ tx, b ≠ 60)
+    (hop : isOpener c = true) :
+    next (Tokenizer.new (tx ++ 60 :: c :: rest).toArray) =
+      { Tokenizer.new (tx ++ 60 :: c :: rest).toArray with
+        rawE := tx.length, dataE := tx.length, token := .text } := by
+  have hml := mainLoop_text tx (Tokenizer.new (tx ++ 60 :: c :: rest).toArray) c h60
+    (fun i hi => by simp [Tokenizer.new, List.getElem?_append_left hi])
+    (by simp [Tokenizer.new])
+    (by simp [Tokenizer.new, List.getElem?_append_right, Nat.le_succ])
+    hop rfl
+  have hn : next (Tokenizer.new (tx ++ 60 :: c :: rest).toArray) =
+      mainLoop (Tokenizer.new (tx ++ 60 :: c :: rest).toArray) := by
+    simp [next, nextGo, Tokenizer.new]
+  rw [hn, hml]
+  unfold dispatchTag
+  have hl : 0 < tx.length := List.length_pos_iff.mpr hne
+  simp [Tokenizer.new, Rio.Consts.htmlTagOpenLen, hl]
+
+/-- **a text followed by a tag**: tokens(tx ++ y) = text(tx) :: tokens(y) when `y` starts with `<` + opener -/
+theorem htmlTokenize?_text {tx y : Bytes} {c : Nat} {rest : Bytes} {ts' : List Tok} {r : Bytes}
+    (hne : tx ≠ []) (h60 : ∀ b ∈ tx, b ≠ 60) (hy0 : y = 60 :: c :: rest) (hop : isOpener c = true)
+    (hy : htmlTokenize? y = some (ts', r)) :
+    htmlTokenize? (tx ++ y) = some (⟨.text, tx, []⟩ :: ts', r) := by
+  subst hy0
+  unfold htmlTokenize? at hy ⊢
+  have hnext := next_text tx c rest hne h60 hop
+  have inv1 : Inv (next (Tokenizer.new (tx ++ 60 :: c :: rest).toArray)) := next_inv' _ (inv_new _)
+  -- the first iteration
+  have hstep : tgStep (Tokenizer.new (tx ++ 60 :: c :: rest).toArray) =
+      .tok ⟨.text, tx, []⟩ (next (Tokenizer.new (tx ++ 60 :: c :: rest).toArray)) := by
+    unfold tgStep
+    simp only
+    rw [raw_eq _ inv1]
+    have hraw : rawL (next (Tokenizer.new (tx ++ 60 :: c :: rest).toArray)) = tx := by
+      rw [hnext]
+      simp [rawL, Tokenizer.new]
+    rw [hraw, hnext]
+    simp [Tokenizer.new, Tokenizer.isTagLike, kindOf]
+  rw [show (tx ++ 60 :: c :: rest).length + 2 = ((60 :: c :: rest).length + 2 + (tx.length - 1)) + 1 by
+    have : 0 < tx.length := List.length_pos_iff.mpr hne
+    simp only [List.length_append, List.length_cons]; omega]
+  rw [tokenizeGo_succ, hstep]
+  simp only
+  rw [tokenizeGo_acc]
+  -- restart after the text
+  have hfields : (next (Tokenizer.new (tx ++ 60 :: c :: rest).toArray)).rawE = tx.length ∧
+      (next (Tokenizer.new (tx ++ 60 :: c :: rest).toArray)).err = false ∧
+      (next (Tokenizer.new (tx ++ 60 :: c :: rest).toArray)).rawTag = [] ∧
+      (next (Tokenizer.new (tx ++ 60 :: c :: rest).toArray)).allowCdata = true ∧
+      (next (Tokenizer.new (tx ++ 60 :: c :: rest).toArray)).buf = (tx ++ 60 :: c :: rest).toArray := by
+    rw [hnext]; simp [Tokenizer.new]
+  have cr := pre_restart _ inv1 hfields.2.1 hfields.2.2.1 hfields.2.2.2.1
+  have hro : restartOf (next (Tokenizer.new (tx ++ 60 :: c :: rest).toArray)) =
+      Tokenizer.new (60 :: c :: rest).toArray := by
+    unfold restartOf
+    rw [hfields.2.2.2.2, hfields.1]
+    congr 1
+    simp [Tokenizer.new]
+  rw [hro] at cr
+  rw [tokenizeGo_full _ _ _ cr inv1 (inv_new _), tokenizeGo_fuel _ (tx.length - 1) _ [] _ hy]
+  simp
 
 end Rio.Filter
